@@ -578,6 +578,7 @@ def main_check(pid, argv):
             known_findings_reproduced=sorted(seen_known.keys()),
             build_profiles=profiles,
             exhaustive=bool(getattr(mod, "EXHAUSTIVE", {}).get(tier, False)),
+            claimed_strength=getattr(mod, "LEVEL", "proof"),
             repo=REPO,
         ),
         assumptions=getattr(mod, "ASSUMPTIONS", []),
